@@ -184,6 +184,11 @@ struct NonConstArrayLengthError : public Error {
     Error(location, (boost::format("array %s length is not constant") % name).str()) {}
 };
 
+struct NonConstValError : public Error {
+  NonConstValError(Location location, std::string name) :
+    Error(location, (boost::format("val %s is not a constant expression") % name).str()) {}
+};
+
 struct InvalidSyscallError : public Error {
   InvalidSyscallError(Location location, int sysCallId) :
     Error(location, (boost::format("invalid syscall: %d") % sysCallId).str()) {}
@@ -784,10 +789,10 @@ public:
 
 class ValDecl : public Decl {
   std::unique_ptr<Expr> expr;
-  int exprValue;
+  std::optional<int> exprValue;
 public:
   ValDecl(Location location, std::string name, std::unique_ptr<Expr> expr) :
-      Decl(location, name), expr(std::move(expr)) {}
+      Decl(location, name), expr(std::move(expr)), exprValue(std::nullopt) {}
   virtual void accept(AstVisitor *visitor) override {
     visitor->visitPre(*this);
     expr->accept(visitor);
@@ -795,8 +800,9 @@ public:
     visitor->visitPost(*this);
   }
   Expr *getExpr() const { return expr.get(); }
-  int getValue() const { return exprValue; }
-  void setValue(int value) { exprValue = value; }
+  bool hasValue() const { return exprValue.has_value(); }
+  int getValue() const { return exprValue.value(); }
+  void setValue(int value) { exprValue.emplace(value); }
 };
 
 class VarDecl : public Decl {
@@ -1812,9 +1818,11 @@ public:
   ConstProp(SymbolTable &symbolTable) :
     AstVisitor(true, true, true), symbolTable(symbolTable) {}
   void visitPost(ValDecl &decl) {
-    if (decl.getExpr()->isConst()) {
-      decl.setValue(decl.getExpr()->getValue());
+    // A val names a constant: its expression must have been evaluated.
+    if (!decl.getExpr()->isConst()) {
+      throw NonConstValError(decl.getLocation(), decl.getName());
     }
+    decl.setValue(decl.getExpr()->getValue());
   }
   void visitPost(BinaryOpExpr &expr) {
     auto &LHS = expr.getLHS();
@@ -1866,6 +1874,10 @@ public:
       auto symbol = symbolTable.lookup(std::make_pair(getCurrentScope(), expr.getName()),
                                        expr.getLocation());
       if (auto symbolExpr = dynamic_cast<const ValDecl*>(symbol->getNode())) {
+        // The val may be used before (or inside) the declaration that gives it a value.
+        if (!symbolExpr->hasValue()) {
+          throw NonConstValError(expr.getLocation(), expr.getName());
+        }
         expr.setSysCallId(symbolExpr->getValue());
       } else {
         return;
@@ -1883,6 +1895,9 @@ public:
     auto symbol = symbolTable.lookup(std::make_pair(getCurrentScope(), expr.getName()),
                                      expr.getLocation());
     if (auto symbolExpr = dynamic_cast<const ValDecl*>(symbol->getNode())) {
+      if (!symbolExpr->hasValue()) {
+        throw NonConstValError(expr.getLocation(), expr.getName());
+      }
       expr.setValue(symbolExpr->getValue());
     }
   }
